@@ -196,6 +196,11 @@ class WorldImpl:
             return self._line(w)
         except (AssertionError, core.ScenarioTimeout):
             raise
+        except IndexError:
+            # a reference to a model / set / class that does not exist (only the shrinker produces these):
+            # the driver answers bad-op as well
+            self.log = []
+            return "bad-op"
         except Exception as e:  # noqa: BLE001
             self.log = []
             return "err Unexpected " + type(e).__name__
